@@ -213,6 +213,16 @@ def npIAdd (v x : NdArg K) : Except Err (NdArg K) :=
   if v.shape = x.shape then pure ⟨v.shape, List.zipWith (fun a b => a + b) v.data x.data⟩
   else throw Err.unmodelled
 
+/-- `np.isclose(c, 0.0)` for a scalar (0-d) `c` with NumPy's default tolerances:
+`|c - 0| ≤ atol + rtol·|0|` with `atol = 1e-8` (round 6: not used by the pinned source; a loop that
+skips such coefficients is carried, so that the theorems about the sum over *all* functions see it). -/
+def npIscloseZero (c : NdArg K) : Except Err Bool :=
+  match c.shape, c.data with
+  | [], [k] =>
+    let atol : K := ((1 : Nat) : K) / ((100000000 : Nat) : K)
+    pure (decide (k ≤ atol) && decide ((-atol) ≤ k))
+  | _, _ => throw Err.unmodelled
+
 end numeric
 
 /-! ### `load_atomic_gaussian_params`: objects, dictionaries, the module-level cache -/
